@@ -5,7 +5,7 @@ SPECIFICATION Spec
 CONSTANTS
   MaxNodes = 5
   MaxDepth = 4
-  Kinds = {"fo","fi","fp","wh","if","el","bl","st","us","br","co","sh","sh2","ex","exa"}
+  Kinds = {"fo","fi","fp","wh","if","el","bl","st","us","br","co","sh","sh2","ex","exa","toi","tii","to"}
   GoodH = {"lt","le","gt","add","rev"}
   MaxDecor = 3
   DefaultHdr = "lt"
